@@ -1,5 +1,6 @@
 import SwcVerif.Props.C07
 import SwcVerif.Proofs.Pipeline
+import SwcVerif.Proofs.Relabel
 import Mathlib.Tactic.Set
 import Mathlib.Tactic.ByContra
 /-! # C07 — the concatenated table is a tree, so the final sort applies to it
@@ -159,4 +160,223 @@ theorem cat_separate_sorted (h1 : t1.length = p1.length ∧ x1.length = p1.lengt
   exact ⟨_, _, _, rfl, hwf, hsorted, by rw [hl, hlen]⟩
 
 end cat
+/-- sorting a tree table with ARBITRARY distinct ids succeeds and yields a sorted well-formed parent list
+(`Pipeline.sorted_wf` without the restriction to ids `0..n-1`) -/
+theorem sorted_wf_gen (r : Rose) (ids ps : List Int) (h : C05.IsTreeTable r ids ps) :
+    ∃ res, sortNodesImpl ids ps = .ok res ∧ WF res.newPids ∧
+      (∀ k (h : k < res.newPids.length), 0 < k → res.newPids[k] < (k : Int)) ∧
+      res.newPids.length = ids.length := by
+  refine ⟨_, C05.sort_ok r _ _ h, ?_⟩
+  have hs := C05.sort_sorted r _ _ h _ (C05.sort_ok r _ _ h)
+  have hp := C05.sort_perm r _ _ h _ (C05.sort_ok r _ _ h)
+  exact ⟨wf_of_sorted _ hs.1 (fun k hk hk0 => (hs.2 k hk hk0).2) (fun k hk hk0 => (hs.2 k hk hk0).1),
+    fun k hk hk0 => (hs.2 k hk hk0).2, hp.2.2.2⟩
+
+/-- closing the gap the deleted junction row leaves in the ids, and opening it again -/
+private def closeGap (k0 v : Int) : Int := if v < k0 then v else v - 1
+private def openGap (k0 v : Int) : Int := if v < k0 then v else v + 1
+
+private theorem openGap_inj (k0 : Int) : Function.Injective (openGap k0) := by
+  intro a b h
+  unfold openGap at h
+  split at h <;> split at h <;> omega
+
+private theorem open_close (k0 v : Int) (h : v ≠ k0) : openGap k0 (closeGap k0 v) = v := by
+  unfold openGap closeGap
+  by_cases h1 : v < k0
+  · rw [if_pos h1, if_pos h1]
+  · rw [if_neg h1]
+    have : ¬ (v - 1 < k0) := by omega
+    rw [if_neg this]; omega
+
+section cat
+variable (p1 t1 x1 y1 z1 p2 t2 x2 y2 z2 : List Int) (node1 node2 : Nat) (translate : Bool)
+
+/-- **coincident junction: the merged table — whose ids skip the deleted junction row — is a tree table, so the
+final sort succeeds and `cat_tree` returns a well-formed, sorted tree with `|tree1| + |tree2| - 1` nodes** -/
+theorem cat_merged_sorted (h1 : t1.length = p1.length ∧ x1.length = p1.length ∧ y1.length = p1.length ∧ z1.length = p1.length)
+    (h2 : t2.length = p2.length ∧ x2.length = p2.length ∧ y2.length = p2.length ∧ z2.length = p2.length)
+    (hn1 : node1 < p1.length) (hn2 : node2 < p2.length) (hw1 : WF p1) (hw2 : WF p2)
+    (hc : Coincident x1 y1 z1 x2 y2 z2 node1 node2 translate) :
+    ∃ newPids idMap c', catTree p1 t1 x1 y1 z1 p2 t2 x2 y2 z2 (node1 : Int) (node2 : Int) translate = some (newPids, idMap, c') ∧
+      WF newPids ∧ (∀ k (h : k < newPids.length), 0 < k → newPids[k] < (k : Int)) ∧
+      newPids.length = p1.length + p2.length - 1 := by
+  obtain ⟨hlen, hA, hB⟩ :=
+    cat_merged p1 t1 x1 y1 z1 p2 t2 x2 y2 z2 node1 node2 translate h1 h2 hn1 hn2 hw2 hc
+  have hidsE := catPre_merged p1 t1 x1 y1 z1 p2 t2 x2 y2 z2 node1 node2 translate (by omega) (by omega) (by omega) hc
+  set c := catPre p1 t1 x1 y1 z1 p2 t2 x2 y2 z2 (node1 : Int) (node2 : Int) translate with hcdef
+  set s := (second p2 t2 node2).pids with hs
+  have hsw : WFr s node2 := second_wfr p2 t2 node2 hw2 hn2
+  have hsl : s.length = p2.length := second_length p2 t2 node2
+  have hw1r := hw1.toWFr
+  have n1pos := hw1.pos
+  set n1 := p1.length with hn1def
+  set n2 := p2.length with hn2def
+  let k0 : Int := (n1 : Int) + (node2 : Int)
+  let N' := n1 + n2 - 1
+  -- where tree 2's node `j` ends up, and back
+  let row : Nat → Nat := fun j => if j < node2 then n1 + j else n1 + j - 1
+  let jOf : Nat → Nat := fun pos => if pos - n1 < node2 then pos - n1 else pos - n1 + 1
+  have hrow_jOf : ∀ pos, n1 ≤ pos → pos < N' → row (jOf pos) = pos ∧ jOf pos < n2 ∧ jOf pos ≠ node2 := by
+    intro pos h1' h2'
+    by_cases hq : pos - n1 < node2
+    · have e : jOf pos = pos - n1 := by simp only [jOf]; rw [if_pos hq]
+      rw [e]; simp only [row]; rw [if_pos hq]; omega
+    · have e : jOf pos = pos - n1 + 1 := by simp only [jOf]; rw [if_neg hq]
+      rw [e]; simp only [row]; rw [if_neg (by omega)]; omega
+  -- the ids: positions with the gap at `k0` opened
+  have hids : c.ids = (Sub.rangeI N').map (openGap k0) := by
+    have e : c.ids = eraseAt ((List.range (n1 + n2)).map Int.ofNat) (node2 + n1) := by
+      rw [hidsE, ids_eq]
+    rw [e]
+    apply List.ext_getElem?
+    intro i
+    by_cases hi : i < N'
+    · have hr : ((Sub.rangeI N').map (openGap k0))[i]? = some (openGap k0 (i : Int)) := by
+        simp [Sub.rangeI, List.getElem?_map, List.getElem?_range hi]
+      rw [hr]
+      by_cases hik : i < node2 + n1
+      · rw [eraseAt_getElem?_lt _ _ _ hik, List.getElem?_map, List.getElem?_range (by omega)]
+        simp only [Option.map_some, openGap, k0]
+        rw [if_pos (by omega)]; rfl
+      · rw [eraseAt_getElem?_ge _ _ _ (by omega) (by simp; omega), List.getElem?_map, List.getElem?_range (by omega)]
+        simp only [Option.map_some, openGap, k0]
+        rw [if_neg (by omega)]; simp
+    · rw [List.getElem?_eq_none (by rw [eraseAt_length _ _ (by simp; omega)]; simp; omega),
+        List.getElem?_eq_none (by simp [Sub.rangeI]; omega)]
+  -- entries of the parent column by position
+  have hP1 : ∀ pos (h : pos < n1) (h' : pos < c.pids.length), c.pids[pos] = p1[pos] := by
+    intro pos h h'
+    have := (hA pos h).2.1
+    rwa [C06.getD_eq_getElem _ _ h', C06.getD_eq_getElem _ _ h] at this
+  have hP2 : ∀ pos (h : n1 ≤ pos) (h' : pos < c.pids.length) (hj : jOf pos < s.length),
+      c.pids[pos] = if s[jOf pos] = (node2 : Int) then (node1 : Int) else s[jOf pos] + (n1 : Int) := by
+    intro pos h h' hj
+    obtain ⟨e1, e2, e3⟩ := hrow_jOf pos h (by omega)
+    have := (hB (jOf pos) e2 e3).2.1
+    have e1' : (if jOf pos < node2 then n1 + jOf pos else n1 + jOf pos - 1) = pos := e1
+    beta_reduce at this
+    rw [e1', C06.getD_eq_getElem _ _ h', C06.getD_eq_getElem _ _ hj] at this
+    exact this
+  -- no entry names the deleted row
+  have hne : ∀ v ∈ c.pids, v ≠ k0 := by
+    intro v hv
+    obtain ⟨pos, hpos, rfl⟩ := List.getElem_of_mem hv
+    by_cases h : pos < n1
+    · rw [hP1 pos h hpos]
+      by_cases h0 : pos = 0
+      · subst h0
+        have := hw1.root
+        rw [List.getElem?_eq_getElem n1pos] at this
+        have := Option.some.inj this
+        simp only [k0]; omega
+      · have := hw1.2.1 pos h (by omega)
+        simp only [k0]; omega
+    · obtain ⟨_, e2, e3⟩ := hrow_jOf pos (by omega) (by omega)
+      rw [hP2 pos (by omega) hpos (by omega)]
+      have hv := hsw.valid (jOf pos) (by omega) e3
+      split
+      · simp only [k0]; omega
+      · rename_i hne'
+        simp only [k0]; omega
+  -- the compacted, position-indexed table
+  set P := c.pids.map (closeGap k0) with hPdef
+  have hPlen : P.length = N' := by simp [hPdef, hlen, N']
+  have hpids : c.pids = P.map (openGap k0) := by
+    rw [hPdef, List.map_map]
+    conv_lhs => rw [← List.map_id c.pids]
+    apply List.map_congr_left
+    intro v hv
+    simp only [Function.comp, id]
+    exact (open_close k0 v (hne v hv)).symm
+  have hPget : ∀ pos (h : pos < P.length), P[pos] = closeGap k0 (c.pids[pos]'(by simpa [hPdef] using h)) := by
+    intro pos h; simp [hPdef]
+  have hN' : 0 < N' := by omega
+  have hroot : P[0]? = some (-1) := by
+    rw [List.getElem?_eq_getElem (by omega), hPget 0 (by omega), hP1 0 n1pos (by omega)]
+    have := hw1.root
+    rw [List.getElem?_eq_getElem n1pos] at this
+    rw [Option.some.inj this]
+    simp [closeGap, k0]; omega
+  -- values of `P`
+  have hv1 : ∀ pos (h : pos < n1) (h' : pos < P.length), pos ≠ 0 → P[pos] = p1[pos] := by
+    intro pos h h' h0
+    rw [hPget pos h', hP1 pos h (by omega)]
+    have := hw1.2.1 pos h (by omega)
+    simp only [closeGap, k0]; rw [if_pos (by omega)]
+  have hv2 : ∀ pos (h : n1 ≤ pos) (h' : pos < P.length) (hj : jOf pos < s.length),
+      (s[jOf pos] = (node2 : Int) ∧ P[pos] = (node1 : Int)) ∨
+      (s[jOf pos] ≠ (node2 : Int) ∧ 0 ≤ s[jOf pos] ∧ s[jOf pos] < n2 ∧
+        n1 ≤ (P[pos]).toNat ∧ (P[pos]).toNat < N' ∧ 0 ≤ P[pos] ∧ jOf (P[pos]).toNat = (s[jOf pos]).toNat) := by
+    intro pos h h' hj
+    obtain ⟨_, e2, e3⟩ := hrow_jOf pos h (by omega)
+    have hval := hsw.valid (jOf pos) (by omega) e3
+    rw [hPget pos h', hP2 pos h (by omega) hj]
+    by_cases hq : s[jOf pos] = (node2 : Int)
+    · left; refine ⟨hq, ?_⟩
+      rw [if_pos hq]; simp only [closeGap, k0]; rw [if_pos (by omega)]
+    · right
+      rw [if_neg hq]
+      refine ⟨hq, hval.1, by omega, ?_⟩
+      generalize hv : s[jOf pos] = v at hq hval ⊢
+      by_cases hlt : v < (node2 : Int)
+      · have e : closeGap k0 (v + (n1 : Int)) = v + n1 := by
+          simp only [closeGap, k0]; rw [if_pos (by omega)]
+        rw [e]
+        refine ⟨by omega, by omega, by omega, ?_⟩
+        have e2' : (v + (n1 : Int)).toNat - n1 = v.toNat := by omega
+        simp only [jOf, e2']
+        rw [if_pos (by omega)]
+      · have e : closeGap k0 (v + (n1 : Int)) = v + n1 - 1 := by
+          simp only [closeGap, k0]; rw [if_neg (by omega)]
+        rw [e]
+        refine ⟨by omega, by omega, by omega, ?_⟩
+        have e2' : (v + (n1 : Int) - 1).toNat - n1 = v.toNat - 1 := by omega
+        simp only [jOf, e2']
+        rw [if_neg (by omega)]; omega
+  have hvalid : ∀ k (h : k < P.length), k ≠ 0 → 0 ≤ P[k] ∧ P[k] < P.length := by
+    intro k h hk
+    by_cases hk1 : k < n1
+    · rw [hv1 k hk1 h hk]
+      have := hw1.2.1 k hk1 (by omega)
+      omega
+    · obtain ⟨_, e2, _⟩ := hrow_jOf k (by omega) (by omega)
+      rcases hv2 k (by omega) h (by omega) with ⟨_, e⟩ | ⟨_, _, _, a, b, c', _⟩
+      · rw [e]; omega
+      · omega
+  let μ : Nat → Nat := fun k => if k < n1 then dep p1 k else (n1 + 2) + dep s (jOf k)
+  have hμ : ∀ k (h : k < P.length), k ≠ 0 → μ (P[k]).toNat < μ k := by
+    intro k h hk
+    by_cases hk1 : k < n1
+    · have hp := hw1.2.1 k hk1 (by omega)
+      have hstep := dep_step hw1r k hk1 hk
+      rw [hv1 k hk1 h hk]
+      have hlt : (p1[k]).toNat < n1 := by omega
+      simp only [μ, if_pos hlt, if_pos hk1]
+      omega
+    · obtain ⟨_, e2, e3⟩ := hrow_jOf k (by omega) (by omega)
+      rcases hv2 k (by omega) h (by omega) with ⟨_, e⟩ | ⟨hq, q0, q1, a, b, c', d⟩
+      · rw [e]
+        have hlt : ((node1 : Int)).toNat < n1 := by omega
+        simp only [μ, if_pos hlt, if_neg hk1]
+        have : dep p1 (node1 : Int).toNat ≤ n1 + 1 := rp_length_le p1 _ _
+        omega
+      · have hstep := dep_step hsw (jOf k) (by omega) e3
+        simp only [μ, if_neg hk1, if_neg (show ¬ (P[k]).toNat < n1 by omega), d]
+        omega
+  have hwfr : WFr P 0 := ⟨hroot, hvalid, reach_of_measure P 0 hroot hvalid μ hμ⟩
+  obtain ⟨r, hrep, hperm, hid⟩ := wfr_represented P 0 hwfr
+  have htt := isTreeTable_of r P 0 hrep hperm hid hwfr.root hwfr.unique
+  have htt' := Relabel.isTreeTable_map (openGap k0) (openGap_inj k0)
+    (by simp only [openGap, k0]; rw [if_pos (by omega)]) r _ _ htt
+  rw [hPlen, ← hids, ← hpids] at htt'
+  obtain ⟨res, hres, hwf, hsorted, hl⟩ := sorted_wf_gen _ _ _ htt'
+  unfold catTree
+  simp only
+  rw [← hcdef, hres]
+  refine ⟨_, _, _, rfl, hwf, hsorted, ?_⟩
+  rw [hl, hids]; simp [Sub.rangeI, N']
+
+end cat
+
 end C07
